@@ -15,6 +15,7 @@ import io
 import json
 import os
 import random
+import shutil
 import sys
 import time
 import warnings
@@ -1434,7 +1435,24 @@ def make_syntax_oracle(pipe: pl.Pipeline) -> Any:
 	from rogw.tranp.syntax.ast.parser import SyntaxParser
 	lark_parser = pipe.resolve(SyntaxParser).dirty_get_origin()
 
+	def rejects(text: str) -> bool:
+		if text == '':
+			return False
+		try:
+			lark_parser.parse(text if text.endswith('\n') else f'{text}\n')
+			return False
+		except Exception:  # noqa: BLE001
+			return True
+
 	def unparsable(mode: str, data: str | bytes) -> bool:
+		# multi-file input (main + imported siblings, all in the import closure by construction of gen.PROJECT_SHAPES): the load fails with
+		# the first file of the closure that the grammar rejects or that is missing — "unparsable text is reported as Errors.Syntax" holds for
+		# imported modules as well. Import lines only (`from … import …` + class headers) in every file but the leaf: nothing else can fail first.
+		if isinstance(data, str) and '\n#%%' in data:
+			parts = data.split('\n#%%')
+			if any(p.startswith('MISSING ') for p in parts[1:]):
+				return True
+			return rejects(parts[0] + '\n') or any(rejects(p.partition('\n')[2]) for p in parts[1:] if p.startswith('FILE '))
 		# the text the pipeline really handed over: an in-memory source is a str (the harness decodes mutated bytes with
 		# errors='replace'), an on-disk source is the file's bytes, which tranp decodes strictly
 		try:
@@ -1489,6 +1507,10 @@ def fuzz_inputs(ctx: Ctx) -> list[tuple[str, str, str | bytes]]:
 	for md, s in gen.depth_cases(ctx.thorough):
 		for m in (both if md == 'both' else (md,)):
 			out.append(('depth-stress', m, s))
+	# import chains: the unparsable / missing module sits 1..3 imports away from the main module (in memory and on disk)
+	for label, text, _ in gen.project_inputs(ctx.sub_rng('projects'), ctx.scale(30, 400)):
+		for m in both:
+			out.append((f'project:{label}', m, text))
 	# histories: a program that imports from its own module stays registered; the next input of the session unloads it
 	for m in both:
 		for s in gen.SELF_IMPORT_PROGRAMS:
@@ -1590,7 +1612,7 @@ def search_fuzz(ctx: Ctx) -> SearchResult:
 	for k in sorted(first):
 		kind, mode, data, o, before = first[k]
 		# corpus witnesses are already minimal, deep-nesting inputs are what they are (and each run of them costs seconds)
-		small = data if kind in ('corpus', 'witness-F3', 'deep-nesting', 'depth-stress') else minimise(pipes[mode], data, k)
+		small = data if kind in ('corpus', 'witness-F3', 'deep-nesting', 'depth-stress') or kind.startswith('project:') else minimise(pipes[mode], data, k)
 		history: list[str | bytes] = []
 		conf = pl.fresh_outcome(mode, base, small, post=syntax_oracle)
 		if k not in conf.keys():
@@ -1724,6 +1746,62 @@ def search_laws(ctx: Ctx) -> SearchResult:
 		passthrough = any(t.split(' ', 1)[1].startswith(('B BaseException', 'B KeyboardInterrupt', 'B SystemExit', 'B GeneratorExit', f"U {hx('MyBase')}", f"U {hx('MyInterrupt')}")) for t in raised)
 		if not (out == 'ok' or ' E ' in out or passthrough):
 			res.findings.append(Finding(key=f"load:{out.split(' ')[1]}@{d['kind']}", what=f'Modules.load let {out} escape ({d["kind"]} stage)', replay={'op': ops[0], 'real': out}))
+	# -- Modules.load / Modules.unload on import graphs (benign loader): no call raises; after unload(p) neither p nor any module that imports
+	#    p is registered (an importer would keep a reference to the stale module); after load(p) p and its import closure are registered
+	names = ['m0', 'm1', 'm2', 'm3', 'l0']
+	for i in range(ctx.scale(120, 1200)):
+		libs = ['l0'] if rng.random() < 0.4 else []
+		mods = names[:rng.randint(2, 4)] + libs
+		if i % 3 == 0:
+			graph = {m: ([mods[k + 1]] if k + 1 < len(mods) - len(libs) else []) for k, m in enumerate(mods)}  # a chain main -> … -> leaf
+		else:
+			graph = {m: [rng.choice(mods) for _ in range(rng.choice([0, 1, 1, 2]))] for m in mods}
+		rig = LoadRig(libs)
+		rig.imports = graph
+		steps = []
+		bad = None
+		for _step in range(rng.randint(2, 5)):
+			p = rng.choice(mods)
+			op = 'load' if rng.random() < 0.55 or not rig.modules.loaded() else 'unload'
+			steps.append(f'{op} {p}')
+			try:
+				getattr(rig.modules, op)(p)
+			except BaseException as e:  # noqa: BLE001
+				bad = (f'graph-{op}:{pl.class_name(e)}@{(pl.tranp_frames(e) or ["no-tranp-frame"])[-1]}', f'Modules.{op}({p!r}) raised {pl.class_name(e)}: {e}')
+				break
+			reg = [m.path for m in rig.modules.loaded()]
+			if op == 'unload' and (p in reg or any(p in graph[q] for q in reg)):
+				bad = ('graph-unload:stale-importer', f'after Modules.unload({p!r}) the registry is {reg}: the module or one of its importers is still registered')
+				break
+			if op == 'load' and p not in reg:
+				bad = ('graph-load:not-registered', f'after Modules.load({p!r}) the registry is {reg}')
+				break
+		res.cases += 1
+		hist['graph/' + ('ok' if bad is None else bad[0])] += 1
+		if bad is not None:
+			res.findings.append(Finding(key=bad[0], what=f'{bad[1]} — import graph {graph}, libraries {libs}, calls {steps}', replay={'graph': graph, 'libs': libs, 'calls': steps}))
+	# -- explicit unload of imported modules on the real pipeline (real loader, real files): load a valid chain, unload the leaf / the middle
+	chain = gen.PROJECT_SHAPES['depth2'].replace('{LEAF}', f'FILE leaf\n{gen.LEAF_VALID}')
+	for mode in ('in-memory', 'on-disk'):
+		from rogw.tranp.module.modules import Modules as _Modules
+		pipe = pl.Pipeline(mode, ctx.tmpdir())
+		o = pipe.run(chain)
+		mods_real = pipe.resolve(_Modules)
+		stem = f'fz.m{pipe.n}_'
+		for target in (f'{stem}leaf', f'{stem}mid', f'{stem}leaf'):
+			res.cases += 1
+			try:
+				mods_real.unload(target)
+				left = [m.path for m in mods_real.loaded() if m.path.startswith(stem) or m.path == '__main__']
+				hist[f'unload-imported/{mode}/ok'] += 1
+				if target in left:
+					res.findings.append(Finding(key=f'unload-imported:still-registered[{mode}]', what=f'{target} is still registered after Modules.unload', replay={'mode': mode, 'source': chain, 'unload': target}))
+			except BaseException as e:  # noqa: BLE001
+				hist[f'unload-imported/{mode}/raise'] += 1
+				res.findings.append(Finding(key=f'unload-imported:{pl.escape_key(e, mode)}', what=f'Modules.unload({target!r}) after loading main -> mid -> leaf ({mode}, load outcome {o.kind}) raised {pl.class_name(e)}: {e}',
+					replay={'mode': mode, 'source': chain, 'unload': target, 'tranp_frames': pl.tranp_frames(e)[-5:]}))
+				break
+		pipe.close()
 	# -- ErrorRender (public API): an argument whose str() raises any Exception must not make the render raise
 	from rogw.tranp.view.error_render import ErrorRender
 	unprintable = [RecursionError('deep'), KeyError('k'), TypeError('t'), UnicodeDecodeError('utf-8', b'\\xff', 0, 1, 'bad'), UnicodeEncodeError('ascii', 'é', 0, 1, 'bad'),
@@ -1839,6 +1917,67 @@ def search_loop_histories(ctx: Ctx) -> SearchResult:
 
 
 # ---------------------------------------------------------------------------------------------
+# search: run-to-run histories over a shared cache directory
+
+
+def search_cache_history(ctx: Ctx) -> SearchResult:
+	"""Run 1 loads an on-disk module (caches on); the file is rewritten; run 2 — a fresh App over the same project and cache directory —
+	loads it again. The outcome class of run 2 must be the outcome class the new text has with an empty cache (in particular: text the
+	grammar rejects is Errors.Syntax). The rewrite keeps the mtime inside the same whole second (sub-second difference), moves it by
+	seconds, or leaves the size equal — the cases a coarse cache identity would confuse."""
+	res = SearchResult('run-to-run histories: rewrite an on-disk module between two runs sharing the cache directory; run 2 reports the NEW text (unparsable → Errors.Syntax)')
+	rng = ctx.sub_rng('cache-history')
+	valid = ['a: int = 1\n', 'def f(x: int) -> int:\n\treturn x\n', 'class A:\n\tdef m(self) -> int:\n\t\treturn 1\n']
+	changed = ['a = = 1\n', 'def f(:\n', 'class A(:\n', 'a: int = $\n', 'x = y\n', 'class A:\n\tdef m(self) -> int:\n\t\treturn self.z\n', 'b: str = "s"\n']
+	base = ctx.tmpdir()
+	hist: Counter[str] = Counter()
+	t_sec = int(time.time()) - 1000
+	plans = [(v, c, dt) for v in valid for c in changed for dt in ('same-second', 'next-second')]
+	plans += [(c, v, 'same-second') for v in valid[:1] for c in changed[:4]]  # broken first, then repaired
+	if not ctx.thorough:
+		plans = [pl_ for i, pl_ in enumerate(plans) if i % 7 == ctx.seed % 7 or (pl_[0] == valid[0] and pl_[1] in (changed[0], changed[4]) and pl_[2] == 'same-second')]
+	# one project and one cache directory for the whole search (the library modules' caches stay warm: an App start costs ~0.2 s instead
+	# of ~1.3 s); every plan uses its own module names, so the module under test is cold in run 1 and in the reference run
+	home = pl.Pipeline('on-disk', base)
+	shared = (home.proj, os.path.join(home.root, 'cache'))
+	home.run('a: int = 0\n')  # warms the library caches
+
+	def fresh_run(module_file: str) -> pl.Outcome:
+		p = pl.Pipeline('on-disk', base, share=shared)
+		try:
+			return p.load_existing(f'fz.{module_file}')
+		finally:
+			shutil.rmtree(p.root, ignore_errors=True)
+
+	for k, (first, second, dt) in enumerate(plans):
+		res.cases += 1
+		path = os.path.join(home.proj, 'fz', f'h{k}.py')
+		with open(path, 'wb') as f:
+			f.write(first.encode('utf-8'))
+		os.utime(path, ns=(t_sec * 10**9 + 100_000_000, t_sec * 10**9 + 100_000_000))
+		o1 = fresh_run(f'h{k}')
+		with open(path, 'wb') as f:
+			f.write(second.encode('utf-8'))
+		t2 = t_sec * 10**9 + 600_000_000 if dt == 'same-second' else (t_sec + 1) * 10**9 + 100_000_000
+		os.utime(path, ns=(t2, t2))
+		o2 = fresh_run(f'h{k}')
+		with open(os.path.join(home.proj, 'fz', f'c{k}.py'), 'wb') as f:
+			f.write(second.encode('utf-8'))
+		oc = fresh_run(f'c{k}')
+		got, want = (o2.cls or o2.kind).split('.')[-1], (oc.cls or oc.kind).split('.')[-1]
+		hist[f'{dt}/{want}'] += 1
+		if got != want:
+			res.findings.append(Finding(key=f'stale-cache:{want}->{got}[{dt}]',
+				what=f'run 1 loaded {first!r} ({(o1.cls or o1.kind).split(".")[-1]}); the file was rewritten as {second!r} ({dt}); run 2 over the same cache directory reports {got}, an empty cache reports {want}',
+				replay={'kind': 'cache-history', 'first': first, 'second': second, 'mtime': dt, 'run2': got, 'cold': want}))
+	home.close()
+	_ = rng
+	res.distinct = res.cases
+	res.histogram = dict(sorted(hist.items()))
+	return res
+
+
+# ---------------------------------------------------------------------------------------------
 
 STATEMENTS = {
 	'proc': 'for every list of nodes and every handler behaviour (return / raise any class — named, user-defined, multiply inheriting — with any arguments): exec ends ok, or with a member of Errors.Error, or with the handler\'s own exception when that is not an Exception; hyp.: node properties do not raise, Errors.Error subclasses accept one-argument construction',
@@ -1894,7 +2033,7 @@ def run(ctx: Ctx) -> int:
 		with ctx.timed('correspondence'):
 			streams = [stream_hierarchy(ctx), stream_proc(ctx), stream_parse(ctx), stream_load(ctx), stream_graph(ctx), stream_loop(ctx), stream_render(ctx), stream_trace(ctx), stream_main(ctx)]
 	with ctx.timed('search'):
-		searches = [search_f3_replay(ctx), search_laws(ctx), search_loop_histories(ctx), search_fuzz(ctx)]
+		searches = [search_f3_replay(ctx), search_laws(ctx), search_cache_history(ctx), search_loop_histories(ctx), search_fuzz(ctx)]
 	wrapped = bool(ctx.generated_tables and ctx.generated_tables[0].get('mem_branch_wrapped'))
 	ctx.notes.append('in-memory parser branch on this tree: ' + ('wrapped (parse_mem_fixed applies)' if wrapped else 'NOT wrapped (parse_mem_counterexample applies; F3)'))
 	return common.finish(ctx, proof, streams, searches,
@@ -1918,6 +2057,17 @@ def replay(ctx: Ctx, path: str) -> int:
 	with open(path, encoding='utf-8') as f:
 		rec = json.load(f)
 	print(json.dumps({k: v for k, v in rec.items() if k != 'input'}, indent=1)[:2000])
+	if rec.get('kind') == 'failing-input' and (rec['input'].get('kind') == 'cache-history' or 'source' not in rec['input']) and rec['input'].get('kind') != 'session':
+		# law / history findings carry their own description; re-evaluate the searches they come from and look for the key again
+		ctx2 = Ctx(PROP, 'thorough' if rec['input'].get('kind') == 'cache-history' else rec.get('tier', 'quick'), int(rec.get('seed', 0)))
+		found = [f for srch in (search_cache_history(ctx2), search_laws(ctx2)) for f in srch.findings if f.key == rec.get('key')]
+		ctx2.cleanup()
+		print(f"replay: key {rec.get('key')} {'reproduced: ' + found[0].what[:300] if found else 'not reproduced'}")
+		known = {k['key'] for k in common.load_known(PROP) if k.get('status') == 'known'}
+		if found and rec.get('key') not in known:
+			print(f'VIOLATION property={PROP} replay={os.path.relpath(path, common.VERIF)}')
+			return 1
+		return 0
 	if rec.get('kind') == 'failing-input' and rec['input'].get('kind') == 'session':
 		rig = LoopRig(ctx)
 		out = rig.run_script([('src', x) for x in rec['input']['session']])
